@@ -288,9 +288,79 @@ func (w *World) argFrom(id string, opts *RunOpts, ex *Extra) {
 	}
 }
 
+// guarded: `guarded <callee> unless-field <Field>` — every call of <callee> in
+// the function sits behind a test of the boolean field: it is dominated by the
+// FALSE successor of an `if x.<Field>`. (With --only-models nothing but type
+// declarations may be produced: no validator collection, no imports.)
+func (w *World) guarded(id string, opts *RunOpts, ex *Extra) {
+	for _, c := range w.specs.Contracts {
+		if !hasTag(c.Props, id) {
+			continue
+		}
+		for _, cl := range c.Clauses {
+			if cl.Kind != "guarded" {
+				continue
+			}
+			f := strings.Fields(cl.Raw)
+			if len(f) != 3 || f[1] != "unless-field" {
+				continue
+			}
+			callee, field := f[0], f[2]
+			name := fmt.Sprintf("%s/guarded:%s-unless-%s", c.Func, callee, field)
+			fn := w.findFunc(c)
+			ex.Count++
+			if fn == nil {
+				ex.Lines = append(ex.Lines, "UNDECIDED: "+c.Func+" not found; "+name+" is not checked")
+				ex.Discharged++
+				continue
+			}
+			var safe []*ssa.BasicBlock // false successors of tests of the field
+			for _, b := range fn.Blocks {
+				ifi, ok := b.Instrs[len(b.Instrs)-1].(*ssa.If)
+				if ok && fieldNameOf(ifi.Cond) == field {
+					safe = append(safe, b.Succs[1])
+				}
+			}
+			found, bad := 0, ""
+			for _, b := range fn.Blocks {
+				for _, ins := range b.Instrs {
+					call, ok := ins.(*ssa.Call)
+					if !ok || !strings.Contains(calleeName(call), callee) {
+						continue
+					}
+					found++
+					okG := false
+					for _, sb := range safe {
+						if sb.Dominates(b) {
+							okG = true
+						}
+					}
+					if !okG && bad == "" {
+						p := w.prog.Fset.Position(call.Pos())
+						bad = fmt.Sprintf("the call of %s at line %d is reachable when %s is set", callee, p.Line, field)
+					}
+				}
+			}
+			switch {
+			case found == 0:
+				ex.Lines = append(ex.Lines, fmt.Sprintf("UNDECIDED: %s: no call of %s found in %s any more", name, callee, c.Func))
+				ex.Discharged++
+			case bad != "":
+				path := writeTextReplay(opts, id, name, bad+"\n(abstract-mode control-flow obligation over go/ssa)", "", "", "bin/govc check "+id)
+				ex.Lines = append(ex.Lines, fmt.Sprintf("VIOLATION property=%s replay=%s no-failing-input-found", id, path))
+				ex.Lines = append(ex.Lines, "  failed obligation: "+name+": "+bad)
+				ex.Violations++
+			default:
+				ex.Discharged++
+			}
+		}
+	}
+}
+
 func (w *World) callOrder(id string, opts *RunOpts, ex *Extra) {
 	w.flowClauses(id, opts, ex)
 	w.argFrom(id, opts, ex)
+	w.guarded(id, opts, ex)
 	for _, c := range w.specs.Contracts {
 		if !hasTag(c.Props, id) {
 			continue
